@@ -410,9 +410,11 @@ def sched_string(trace):
 # ======================================================================================
 # 2. Values (mirror of probe-thread/src/main.rs)
 # ======================================================================================
-TYPES = ("unit", "u8", "u64", "a3", "al64", "big", "box", "str", "a16", "a32", "a64x", "a4k")
+TYPES = ("unit", "u8", "u64", "a3", "al64", "big", "box", "str", "a16", "a32", "a64x", "a4k", "tok", "vec", "lease", "en")
+# tok/vec/lease/en (and str): Option::None of these is NOT the all-zero pattern (niche in a bool / capacity / enum field);
+# tok = Token{live: bool, id: u32} with a destructor that counts its runs per id (id 0 is never made), lease = {Box<u64>, bool}
 # a16 = u128; a32/a64x/a4k = #[repr(align(32|64|4096))] byte arrays of 40/65/100 bytes whose last bytes matter
-HEAP_TYPES = {"box": (8, 8), "str": (24, 1), "pdb": (8, 8)}
+HEAP_TYPES = {"box": (8, 8), "str": (24, 1), "pdb": (8, 8), "vec": (16, 1), "lease": (8, 8)}
 # results whose destructor panics (plain / heap-owning): never in TYPES rotations, they need their own scenarios
 DTOR_PANIC_TYPES = ("pd", "pdb")
 FNV0 = 0xCBF29CE484222325
@@ -444,6 +446,14 @@ def value_bytes(ty, t):
         return _pattern(65, t)
     if ty == "a4k":
         return _pattern(100, t)
+    if ty == "tok":
+        return ((t % 0xFFFFFFF0) + 1).to_bytes(4, "little") + b"\x01"
+    if ty == "vec":
+        return bytes((t * 3 + i * 5 + 2) & 255 for i in range(12))
+    if ty == "lease":
+        return ((v64(t) + 11) & M64).to_bytes(8, "little") + b"\x01"
+    if ty == "en":
+        return bytes([t % 3])
     if ty == "pd":
         return v64(t).to_bytes(8, "little")
     if ty == "pdb":
@@ -605,7 +615,7 @@ def parse_report(text):
     r = dict(mode=None, main_tid=0, base=None, end=None, maps0=[], maps1=[], spawn={}, join={}, drop=[], runs={}, alive=None,
              blocks={}, tids={}, gt=[], log=[], poison=None, poisonbad=[], live=[], counters=None, stuck=None, done=False,
              aborted=False, fp=[], hist=None, concurrent=None, settle_timeouts=0, prejoin_live=None, joining=[], usage=False,
-             early=[], early_total=0, stillrunning=[], notcleared=[], notgone=[], canarybad=[], canary=None)
+             early=[], early_total=0, stillrunning=[], notcleared=[], notgone=[], canarybad=[], canary=None, tok={}, toktotal=None)
 
     def snap(w):
         return dict(maps=int(w[2]), vm=int(w[4]), tasks=int(w[6]), live_n=int(w[8]), live_bytes=int(w[9]), live_hash=int(w[10], 16))
@@ -672,6 +682,10 @@ def parse_report(text):
                 r["prejoin_live"] = (int(w[1]), int(w[2]))
             elif k == "joining":
                 r["joining"].append(int(w[1]))
+            elif k == "tok":
+                r["tok"][int(w[1])] = (int(w[2]), int(w[3]))
+            elif k == "toktotal":
+                r["toktotal"] = tuple(int(x) for x in w[1:5])
             elif k == "canarybad":
                 r["canarybad"].append(dict(addr=int(w[1], 16), size=int(w[2]), rear=int(w[3]), off=int(w[4]), byte=int(w[5])))
             elif k == "canary":
@@ -938,6 +952,22 @@ def resource_checks(v, rep, specs, preds, ungated=False):
             v.add("C06:%s:written-after-free" % what,
                   "thread %s: byte %d of the freed %s (%d bytes at %#x) was overwritten with %#04x after the free (offset 4..8 is the exit word the kernel clears on thread exit)" %
                   (o_, pb["off"], what, pb["size"], pb["addr"], pb["byte"]))
+    # results with a counting destructor: destructor runs == results made, exactly, per thread; none for a value nobody made
+    for o, (ty, panics, op) in enumerate(specs):
+        if ty != "tok" or rep["spawn"].get(o, (1, 0))[0] != 1:
+            continue
+        made, drops = rep["tok"].get(o, (0, 0))
+        want = 0 if is_panic(panics) else 1
+        if made != want:
+            v.add("C05:closure:result-made-%d-times" % made, "thread %d: its closure made %d results, expected %d" % (o, made, want))
+        elif drops != made:
+            v.add("C06:result:destructor-runs-differ-from-results-made",
+                  "thread %d (tok %s %s): %d result made, its destructor ran %d times by the end" % (o, "panics" if is_panic(panics) else "returns", op, made, drops))
+    tt = rep.get("toktotal")
+    if tt and (tt[2] or tt[3]):
+        v.add("C06:result:destructor-ran-on-a-value-nobody-made",
+              "a Token destructor ran %d times on id 0 and %d times on a Token with live == false: no closure ever made such a value - the join block's result slot "
+              "was taken for Some(value) without anybody having stored one" % (tt[2], tt[3]))
     # red zones: a write before / past the end of a block
     for cb in rep["canarybad"][:4]:
         what, o_ = "heap", None
@@ -1306,6 +1336,15 @@ def eval_hist(binp, case):
     if h["bad_join"]:
         v.add("C05:join:wrong-value", "%d joins of the history returned the wrong Some/None or lost the closure's write" % h["bad_join"])
     all_specs = specs * reps
+    tt = rep.get("toktotal")
+    if tt and not log:
+        want = reps * sum(1 for ty_, p_, _o in specs if ty_ == "tok" and not is_panic(p_))
+        if tt[2] or tt[3]:
+            v.add("C06:result:destructor-ran-on-a-value-nobody-made", "history %s x %d: %d destructor runs on a Token with id 0, %d with live == false" %
+                  (spec_str(specs), reps, tt[2], tt[3]))
+        if tt[0] != want or tt[1] != tt[0]:
+            v.add("C06:result:destructor-runs-differ-from-results-made", "history %s x %d: %d results expected, %d made, %d destructor runs" %
+                  (spec_str(specs), reps, want, tt[0], tt[1]))
     if log:
         value_checks(v, rep, all_specs, None)
         resource_checks(v, rep, all_specs, None, ungated=True)
@@ -1957,6 +1996,13 @@ def enumerate_hist(tier):
     # "the thread finishes during the join", timed by the kernel clock: the closure sleeps 300 ms, join is called at once
     for sp in (("u64", False, "s"), ("box", False, "s"), ("u64", True, "s")):
         cases.append(dict(kind="hist", specs=[sp], reps=1, log=True, strace=True, name="hist/sleep300/" + spec_str([sp])))
+    # results whose Option::None is not all-zero: {returns, panics} x {join, join late, drop before the thread's CAS, drop after exit, racy drop}
+    for ty in ("tok", "vec", "lease", "en", "str"):
+        for p in (False, True):
+            for op in ("j", "J", "e", "l", "x"):
+                cases.append(dict(kind="hist", specs=[(ty, p, op)], reps=1, log=True, name="hist/niche/%s:%s:%s" % (ty, kind_letter(p), op)))
+    cases.append(dict(kind="hist", specs=[("tok", False, "j"), ("tok", True, "l"), ("tok", False, "e"), ("tok", True, "j"), ("tok", False, "l")] * 4,
+                      reps=1, log=True, name="hist/niche/tok-20-threads"))
     # results whose DESTRUCTOR panics: joined (the joiner takes the value apart), or the handle is dropped before the
     # thread's flag CAS so that the thread itself has to run the destructor (and ends on the panic path)
     for ty in DTOR_PANIC_TYPES:
@@ -1994,7 +2040,7 @@ def enumerate_long(tier, closure_sizes):
     thorough = tier == "thorough"
     reps = 2000 if thorough else 200
     cases = []
-    types = ("u64", "al64", "big", "str", "unit") if thorough else ("u64", "big")
+    types = ("u64", "al64", "big", "str", "unit", "tok", "lease") if thorough else ("u64", "big", "tok")
     for ty in types:
         for p, op in HIST_LETTERS:
             if ty in HEAP_TYPES and not p and op in ("e", "l", "x"):
